@@ -1,8 +1,82 @@
 """C01: decided on spec/Cascade.tla (TLC) + trace validation of the real controller (spec/CascadeTrace.tla)."""
+from ..cascade_engine import replay as _replay
 from ..cascade_engine import report
 
 LEVEL = "model_checking"
 
 
+def real_clusters(ctx):
+    """Sanity tier on real processes: the same jobs on real clusters; values must equal sequential evaluation."""
+    import glob
+    import json
+    import os
+    import pickle
+    import signal
+    import subprocess
+    import sys
+    import time
+    from concurrent.futures import ThreadPoolExecutor
+
+    from ..cascade_model import quick_instances, thorough_instances
+    from ..common import ROOT
+    from .c05 import _free_port_base, _session_procs
+
+    pool = [i for i in (quick_instances() if ctx.quick else thorough_instances()) if not i.gpu_tasks and i.outs]
+    pick = pool[:: max(1, len(pool) // (4 if ctx.quick else 24))][: (4 if ctx.quick else 24)]
+    base = _free_port_base(len(pick) * 50 + 60)
+
+    def job(ic):
+        k, inst = ic
+        tag = f"j{os.getpid() % 10000}n{k}"
+        ip = ctx.scratch / f"{tag}.pickle"
+        pickle.dump(inst, open(ip, "wb"))
+        out = ctx.scratch / f"{tag}.out"
+        with open(out, "w") as fo, open(ctx.scratch / f"{tag}.err", "w") as fe:
+            p = subprocess.Popen([sys.executable, "-W", "ignore", "-m", "harness.cluster.job_run", str(ip), str(base + k * 50), tag],
+                                 cwd=ROOT, stdout=fo, stderr=fe, start_new_session=True)
+            try:
+                p.wait(60)
+            except subprocess.TimeoutExpired:
+                pass
+        left = 0
+        for _ in range(60):
+            left = _session_procs(p.pid)
+            if left == 0:
+                break
+            time.sleep(0.2)
+        segs = len(glob.glob(f"/dev/shm/sCasc{tag}*"))
+        ob = {"outcome": "hang"}
+        for line in open(out):
+            if line.startswith("RESULT "):
+                ob = json.loads(line[7:])
+        ob["leftover_procs"], ob["segments"] = left, segs
+        try:
+            os.killpg(p.pid, signal.SIGKILL)
+        except ProcessLookupError:
+            pass
+        for f in glob.glob(f"/dev/shm/sCasc{tag}*") + glob.glob(f"/tmp/{tag}h*.socket"):
+            try:
+                os.unlink(f)
+            except OSError:
+                pass
+        return inst.name, ob
+
+    with ThreadPoolExecutor(max_workers=3) as tp:
+        results = list(tp.map(job, list(enumerate(pick))))
+    for name, ob in results:
+        if ob["outcome"] != "ok":
+            ctx.violate(f"real_cluster:{ob['outcome']}", f"job {name} on a real cluster: {ob}", {"instance": name, "observed": ob})
+        elif not ob.get("values_ok"):
+            ctx.violate("real_cluster:values_differ_from_sequential", f"job {name} on a real cluster: {ob}", {"instance": name, "observed": ob})
+    ctx.coverage["real_cluster_runs"] = len(results)
+    ctx.coverage["real_cluster_instances"] = [n for n, _ in results]
+    ctx.coverage["traces_validated_against_impl"] += len(results)
+
+
 def run(ctx):
     report(ctx, "C01")
+    real_clusters(ctx)
+
+
+def replay(ctx, rep):
+    return _replay(ctx, "C01", rep)
